@@ -4,7 +4,9 @@ id="$1"; x="$2"; src="/tmp/seed_out/$id/$x"
 wt="/tmp/try_${id}_${x}"
 out="/verif/seeded/${id}-${x}"
 mkdir -p "$out"
-cp "$src/patch.diff" "$src/demo.py" "$src/meta.json" "$out/" || exit 2
+# first confirmation copies the agent's delivery; later runs re-use the archived copy under seeded/
+if [ -f "$src/patch.diff" ]; then cp "$src/patch.diff" "$src/demo.py" "$src/meta.json" "$out/" || exit 2; fi
+[ -f "$out/patch.diff" ] || { echo "no such seed: $id $x"; exit 2; }
 git -C /repo worktree remove --force "$wt" >/dev/null 2>&1
 git -C /repo worktree add --detach "$wt" "${SEED_BASE:-HEAD}" >/dev/null 2>&1
 log="$out/confirm.log"; : > "$log"
